@@ -2,9 +2,11 @@ package ir
 
 import (
 	"fmt"
+	"go/ast"
 	"go/constant"
 	"go/token"
 	"go/types"
+	"os"
 	"sort"
 	"strings"
 
@@ -134,7 +136,7 @@ func (e *Expr) Alts() []*Expr {
 // ---------------------------------------------------------------------------------------
 
 type builder struct {
-	cuts int
+	cuts  int
 	w     *World
 	fn    *ssa.Function
 	memo  map[ssa.Value]*Expr
@@ -525,6 +527,13 @@ func (b *builder) call(c *ssa.Call) *Expr {
 		}
 		e.Args = append(e.Args, b.expr(a))
 	}
+	// a plumbing helper (in-scope, effect-free, outside the types packages) is transparent: the origin
+	// of its result is the origin of what it returns, in the caller's terms
+	if e.Callee != nil && b.w.Plumbing(e.Callee) {
+		if in := b.w.inlinePlumbing(e); in != nil {
+			return in
+		}
+	}
 	// canonical form of a store read: state:<section>(key)
 	if isKVStoreRecv(cc) && methodName(cc) == "Get" && len(cc.Args) == 1 {
 		key := b.expr(cc.Args[0])
@@ -561,6 +570,9 @@ func (b *builder) load(u *ssa.UnOp) *Expr {
 		e := &Expr{Op: "elem", Args: []*Expr{b.expr(r.X), b.expr(r.Index)}}
 		return projectPath(e, r.Type(), path)
 	default:
+		if pr, ok := root.(*ssa.Parameter); ok && b.rd != nil && len(b.rd.defs[pr]) > 0 {
+			return b.rd.at(u, pr, path)
+		}
 		// pointer held in a parameter / call result / field: external memory
 		base := b.expr(root)
 		return projectPath(base, root.Type(), path)
@@ -595,7 +607,7 @@ func projectPath(e *Expr, ptrT types.Type, path []int) *Expr {
 type reachDefs struct {
 	b *builder
 	// for each alloc: list of defining instructions (stores into it, escaping calls)
-	defs map[*ssa.Alloc][]rdDef
+	defs map[ssa.Value][]rdDef
 	memo map[rdKey]*Expr
 	busy map[rdKey]bool
 	// allocs captured by a closure: their content may change at any call
@@ -615,12 +627,12 @@ type rdDef struct {
 
 type rdKey struct {
 	blk  *ssa.BasicBlock
-	a    *ssa.Alloc
+	a    ssa.Value
 	path string
 }
 
 func newReachDefs(b *builder) *reachDefs {
-	rd := &reachDefs{b: b, defs: map[*ssa.Alloc][]rdDef{}, memo: map[rdKey]*Expr{}, busy: map[rdKey]bool{}, captured: map[*ssa.Alloc]bool{}}
+	rd := &reachDefs{b: b, defs: map[ssa.Value][]rdDef{}, memo: map[rdKey]*Expr{}, busy: map[rdKey]bool{}, captured: map[*ssa.Alloc]bool{}}
 	if b.fn == nil {
 		return rd
 	}
@@ -638,6 +650,10 @@ func newReachDefs(b *builder) *reachDefs {
 				root, path := addrPath(x.Addr)
 				if a, ok := root.(*ssa.Alloc); ok {
 					rd.defs[a] = append(rd.defs[a], rdDef{in: in, path: path, val: x.Val, blk: blk, idx: i})
+				} else if pr, ok := root.(*ssa.Parameter); ok && isStructPtr(pr.Type()) {
+					// a struct handed in by pointer and filled in here: its cells are tracked like a local's,
+					// starting from the caller's content
+					rd.defs[pr] = append(rd.defs[pr], rdDef{in: in, path: path, val: x.Val, blk: blk, idx: i})
 				}
 			case ssa.CallInstruction:
 				cc := x.Common()
@@ -653,12 +669,27 @@ func newReachDefs(b *builder) *reachDefs {
 						}
 						call, _ := in.(*ssa.Call)
 						rd.defs[a] = append(rd.defs[a], rdDef{in: in, path: path, esc: call, ai: ai, blk: blk, idx: i})
+					} else if pr, ok := root.(*ssa.Parameter); ok && isStructPtr(pr.Type()) {
+						if b.w.argReadOnly(x, ai, 0) {
+							continue
+						}
+						call, _ := in.(*ssa.Call)
+						rd.defs[pr] = append(rd.defs[pr], rdDef{in: in, path: path, esc: call, ai: ai, blk: blk, idx: i})
 					}
 				}
 			}
 		}
 	}
 	return rd
+}
+
+func isStructPtr(t types.Type) bool {
+	p, ok := t.Underlying().(*types.Pointer)
+	if !ok {
+		return false
+	}
+	_, ok = p.Elem().Underlying().(*types.Struct)
+	return ok
 }
 
 func stripConv(v ssa.Value) ssa.Value {
@@ -691,7 +722,7 @@ func hasPrefix(p, pre []int) bool {
 }
 
 // at computes the value of cell (a,path) just before instruction `at`.
-func (rd *reachDefs) at(at ssa.Instruction, a *ssa.Alloc, path []int) *Expr {
+func (rd *reachDefs) at(at ssa.Instruction, a ssa.Value, path []int) *Expr {
 	blk := at.Block()
 	idx := -1
 	for i, in := range blk.Instrs {
@@ -704,11 +735,11 @@ func (rd *reachDefs) at(at ssa.Instruction, a *ssa.Alloc, path []int) *Expr {
 }
 
 // scan looks backwards from (blk, idx) for the definition of the cell.
-func (rd *reachDefs) scan(blk *ssa.BasicBlock, idx int, a *ssa.Alloc, path []int) *Expr {
+func (rd *reachDefs) scan(blk *ssa.BasicBlock, idx int, a ssa.Value, path []int) *Expr {
 	cellT := cellType(a, path)
 	for i := idx - 1; i >= 0; i-- {
 		in := blk.Instrs[i]
-		if in == ssa.Instruction(a) {
+		if al, isAlloc := a.(*ssa.Alloc); isAlloc && in == ssa.Instruction(al) {
 			return &Expr{Op: "zero", Name: typeShort(cellT), T: cellT}
 		}
 		for _, d := range rd.defs[a] {
@@ -733,6 +764,10 @@ func (rd *reachDefs) scan(blk *ssa.BasicBlock, idx int, a *ssa.Alloc, path []int
 	}
 	// block start: union over predecessors
 	if len(blk.Preds) == 0 {
+		if pr, ok := a.(*ssa.Parameter); ok {
+			// function entry: what the caller handed in
+			return projectPath(&Expr{Op: "param", Name: pr.Name(), V: pr, T: pr.Type()}, pr.Type(), path)
+		}
 		return &Expr{Op: "zero", Name: typeShort(cellT), T: cellT}
 	}
 	k := rdKey{blk, a, pathKey(path)}
@@ -769,7 +804,7 @@ func (rd *reachDefs) scan(blk *ssa.BasicBlock, idx int, a *ssa.Alloc, path []int
 }
 
 // compose builds a struct expression field by field at position (blk, idx).
-func (rd *reachDefs) compose(blk *ssa.BasicBlock, idx int, a *ssa.Alloc, path []int) *Expr {
+func (rd *reachDefs) compose(blk *ssa.BasicBlock, idx int, a ssa.Value, path []int) *Expr {
 	t := cellType(a, path)
 	st, ok := t.Underlying().(*types.Struct)
 	if !ok {
@@ -799,9 +834,9 @@ func (rd *reachDefs) compose(blk *ssa.BasicBlock, idx int, a *ssa.Alloc, path []
 	return e
 }
 
-func cellType(a *ssa.Alloc, path []int) types.Type { return cellTypeOf(a, path) }
+func cellType(a ssa.Value, path []int) types.Type { return cellTypeOf(a, path) }
 
-func cellTypeOf(a *ssa.Alloc, path []int) types.Type {
+func cellTypeOf(a ssa.Value, path []int) types.Type {
 	t := deref(a.Type())
 	for _, i := range path {
 		if st, ok := t.Underlying().(*types.Struct); ok && i < st.NumFields() {
@@ -825,7 +860,7 @@ func projectPath2(e *Expr, t types.Type, path []int) *Expr {
 // points to (a step extracted into `func step(..., x *T)`), the content after the call is the content
 // before it with those fields replaced by what the helper stores (in the caller's terms); fields the
 // helper leaves alone keep their value. Anything else falls back to escapeExpr (opaque).
-func (rd *reachDefs) escapeExprAt(d rdDef, blk *ssa.BasicBlock, idx int, a *ssa.Alloc) *Expr {
+func (rd *reachDefs) escapeExprAt(d rdDef, blk *ssa.BasicBlock, idx int, a ssa.Value) *Expr {
 	if d.esc == nil {
 		return rd.escapeExpr(d)
 	}
@@ -1053,6 +1088,206 @@ func Subst(e *Expr, params map[string]*Expr) *Expr {
 	return &ne
 }
 
+// Plumbing reports whether fn is a transparent helper for origin purposes: an in-scope function with
+// a body, outside the modules' types packages (whose key builders, constructors and calculators are
+// the anchors rules match on), that — transitively — touches no store, bank, event manager or global
+// and writes through none of its parameters. Extracting part of an expression into such a helper
+// (or bundling values in a struct built by one) must not change what a rule sees.
+func (w *World) Plumbing(fn *ssa.Function) bool {
+	if v, ok := w.plumb[fn]; ok {
+		return v
+	}
+	if w.plumb == nil {
+		w.plumb = map[*ssa.Function]bool{}
+	}
+	w.plumb[fn] = false // recursion: not plumbing
+	ok := w.plumbing(fn)
+	if os.Getenv("MCDEBUG") == "plumb" {
+		fmt.Fprintln(os.Stderr, "plumbing", FuncName(fn), ok)
+	}
+	w.plumb[fn] = ok
+	return ok
+}
+
+func (w *World) plumbing(fn *ssa.Function) bool {
+	if fn == nil || len(fn.Blocks) == 0 || !w.inSet[fn] || w.IsGenerated(fn) || fn.Signature.Results().Len() == 0 {
+		return false
+	}
+	if pk := FnPkg(fn); pk == nil || strings.HasSuffix(pk.Path(), "/types") && ast.IsExported(fn.Name()) {
+		// the exported functions of the types packages are the vocabulary rules are written in; their unexported helpers are not
+		return false
+	}
+	for _, e := range w.EffectsOf(fn) {
+		switch e.Kind {
+		case "Panic", "Float", "MapRange", "WallClock":
+		default:
+			return false
+		}
+	}
+	for _, b := range fn.Blocks {
+		for _, in := range b.Instrs {
+			switch x := in.(type) {
+			case *ssa.Store:
+				root := x.Addr
+				for {
+					if fa, ok := root.(*ssa.FieldAddr); ok {
+						root = fa.X
+					} else if ia, ok := root.(*ssa.IndexAddr); ok {
+						root = ia.X
+					} else {
+						break
+					}
+				}
+				if al, ok := root.(*ssa.Alloc); !ok || al.Parent() != fn {
+					return false
+				}
+			case *ssa.MapUpdate:
+				if _, ok := x.Map.(*ssa.MakeMap); !ok {
+					return false
+				}
+			case *ssa.Go, *ssa.Defer:
+				return false
+			case ssa.CallInstruction:
+				cc := x.Common()
+				if _, isB := cc.Value.(*ssa.Builtin); isB {
+					continue
+				}
+				cs := w.CalleesOf(x)
+				if len(cs) == 0 {
+					// an out-of-scope callee: fine when static (SDK/stdlib value functions); a dynamic call could do anything
+					if cc.StaticCallee() == nil && !cc.IsInvoke() && funcVarOf(cc.Value) == nil {
+						return false
+					}
+					if cc.IsInvoke() && !pureIfaceMethod(cc) {
+						return false
+					}
+					continue
+				}
+				for _, g := range cs {
+					if !w.Plumbing(g) && !w.effectFree(g, map[*ssa.Function]bool{}) {
+						return false
+					}
+				}
+			}
+		}
+	}
+	return true
+}
+
+// pureIfaceMethod: an interface method of an out-of-scope type that is known not to change state
+// (sdk.Msg / sdk.Tx accessors, Stringer, error).
+func pureIfaceMethod(cc *ssa.CallCommon) bool {
+	switch cc.Method.Name() {
+	case "String", "Error", "GetMsgs", "GetSigners", "GetFee", "GetGas", "FeePayer", "FeeGranter", "ValidateBasic", "Route", "Type", "Equals", "Empty", "Bytes", "Len":
+		return true
+	}
+	return false
+}
+
+// effectFree: g (a types-package function, not plumbing by definition) and everything it calls in scope has no effects.
+func (w *World) effectFree(g *ssa.Function, busy map[*ssa.Function]bool) bool {
+	if busy[g] {
+		return true
+	}
+	busy[g] = true
+	for _, e := range w.EffectsOf(g) {
+		switch e.Kind {
+		case "Panic", "Float", "MapRange", "WallClock":
+		default:
+			return false
+		}
+	}
+	for _, ed := range w.callees[g] {
+		if !w.effectFree(ed.To, busy) {
+			return false
+		}
+	}
+	return true
+}
+
+// inlinePlumbing replaces the call expression of a plumbing helper by what its success-capable
+// returns hand back (the values of a failing return are not used by a caller that checks the error;
+// the flat view decides whether it does). Predicates and error results stay opaque: conditions are
+// looked through path-sensitively by the guard primitives, which need the call itself.
+func (w *World) inlinePlumbing(e *Expr) *Expr {
+	fn := e.Callee
+	res := fn.Signature.Results()
+	keep := make([]bool, res.Len())
+	n := 0
+	for i := 0; i < res.Len(); i++ {
+		t := res.At(i).Type()
+		if isErrorType(t) || t.String() == "bool" {
+			keep[i] = true
+		} else {
+			n++
+		}
+	}
+	if n == 0 {
+		return nil
+	}
+	sum, ok := w.plumbSum[fn]
+	if !ok {
+		if w.building[fn] {
+			return nil
+		}
+		w.building[fn] = true
+		bb := w.builderFor(fn)
+		alts := make([][]*Expr, res.Len())
+		for _, r := range w.SuccessReturns(fn) {
+			for i, v := range r.Results {
+				if !keep[i] {
+					alts[i] = append(alts[i], bb.expr(v))
+				}
+			}
+		}
+		delete(w.building, fn)
+		sum = &Expr{Op: "tuple"}
+		for i := 0; i < res.Len(); i++ {
+			switch {
+			case keep[i]:
+				sum.Args = append(sum.Args, nil)
+			case len(alts[i]) == 0:
+				sum = nil
+			default:
+				sum.Args = append(sum.Args, mkPhi(alts[i]))
+			}
+			if sum == nil {
+				break
+			}
+		}
+		if w.plumbSum == nil {
+			w.plumbSum = map[*ssa.Function]*Expr{}
+		}
+		w.plumbSum[fn] = sum
+	}
+	if sum == nil {
+		return nil
+	}
+	params := map[string]*Expr{}
+	for i, p := range fn.Params {
+		if i < len(e.Args) {
+			params[p.Name()] = e.Args[i]
+		}
+	}
+	out := &Expr{Op: "tuple"}
+	for i, a := range sum.Args {
+		if a == nil {
+			out.Args = append(out.Args, &Expr{Op: "res", Name: fmt.Sprint(i), Args: []*Expr{e}})
+			continue
+		}
+		x := Subst(a, params)
+		// a container filled inside the helper has no origin expression for its contents: keep the call
+		if opaque(x) || x.size() > 600 || x.Any(func(z *Expr) bool { return z.Op == "makemap" || z.Op == "makeslice" || z.Op == "makechan" }) {
+			return nil
+		}
+		out.Args = append(out.Args, x)
+	}
+	if len(out.Args) == 1 {
+		return out.Args[0]
+	}
+	return out
+}
+
 // Inline returns the substituted summary of an in-scope call expression (a "tuple" or single
 // value), or nil when the callee is not resolvable.
 func (w *World) Inline(e *Expr) *Expr {
@@ -1178,15 +1413,44 @@ func (b *builder) arrayLit(sl *ssa.Slice) *Expr {
 			}
 			var stored ssa.Value
 			cnt := 0
+			// a struct element written field by field ({label: ..., value: ...} in a table literal)
+			st0, isStruct := arr.Elem().Underlying().(*types.Struct)
+			var fields map[int]*Expr
 			if xr := x.Referrers(); xr != nil {
 				for _, rr := range *xr {
 					if st, ok := rr.(*ssa.Store); ok && st.Addr == x {
 						stored = st.Val
 						cnt++
+					} else if fa, ok := rr.(*ssa.FieldAddr); ok && isStruct && fa.X == x {
+						fr := fa.Referrers()
+						if fr == nil || len(*fr) != 1 {
+							return nil
+						}
+						fs, ok := (*fr)[0].(*ssa.Store)
+						if !ok || fs.Addr != fa {
+							return nil
+						}
+						if fields == nil {
+							fields = map[int]*Expr{}
+						}
+						fields[fa.Field] = b.expr(fs.Val)
 					} else {
 						return nil
 					}
 				}
+			}
+			if fields != nil && cnt == 0 {
+				se := &Expr{Op: "struct", Name: typeShort(arr.Elem()), T: arr.Elem()}
+				for fi := 0; fi < st0.NumFields(); fi++ {
+					se.Fields = append(se.Fields, st0.Field(fi).Name())
+					if fe, ok := fields[fi]; ok {
+						se.Args = append(se.Args, fe)
+					} else {
+						se.Args = append(se.Args, &Expr{Op: "zero", Name: typeShort(st0.Field(fi).Type())})
+					}
+				}
+				elems[i64] = se
+				continue
 			}
 			if cnt != 1 {
 				return nil
@@ -1625,6 +1889,39 @@ func Replace(e, old, new *Expr) *Expr {
 	}
 	if !changed {
 		return e
+	}
+	return &ne
+}
+
+// UnrollLists rewrites "element of a literal list at a non-constant index" into the alternatives it
+// can denote (a phi of the elements), distributing field selections over them: the value a table-driven
+// loop looks at in some iteration.
+func UnrollLists(e *Expr) *Expr {
+	if e == nil || len(e.Args) == 0 {
+		return e
+	}
+	args := make([]*Expr, len(e.Args))
+	changed := false
+	for i, a := range e.Args {
+		args[i] = UnrollLists(a)
+		if args[i] != a {
+			changed = true
+		}
+	}
+	if e.Op == "elem" && len(args) == 2 && args[0].Op == "list" && args[1].Op != "const" && len(args[0].Args) > 0 {
+		return mkPhi(append([]*Expr{}, args[0].Args...))
+	}
+	if !changed {
+		return e
+	}
+	ne := *e
+	ne.Args = args
+	ne.str = ""
+	switch ne.Op {
+	case "field":
+		return fieldOf(args[0], ne.Name)
+	case "phi":
+		return mkPhi(args)
 	}
 	return &ne
 }
